@@ -139,6 +139,7 @@ def stepOpF (y : FSim) : Op → List FSim
   | .advance ms => (advanceAllF 64 (y.x.st.now + ms) y.f).map y.put
   | .dropHandles => [{ y with x := { y.x with st := { y.x.st with closed := true } } }]
   | .inject p cs aw => injectAllF 50 y p cs aw
+  | .clone w => [{ y with x := cloneWaiter y.x w }]
 
 def runOpsF (y : FSim) : List Op → List FSim
   | [] => [y]
